@@ -7,10 +7,14 @@ def sh(cmd, cwd, timeout=1500):
     p = subprocess.run(cmd, shell=True, cwd=cwd, capture_output=True, text=True, timeout=timeout)
     return p.returncode, (p.stdout + p.stderr)[-3000:]
 prop = sys.argv[1]
-for k in sys.argv[2:]:
+offset = 0
+argv = sys.argv[2:]
+if "--offset" in argv:
+    i = argv.index("--offset"); offset = int(argv[i + 1]); del argv[i:i + 2]
+for k in argv:
     src = "/tmp/wt/%s.out/change%s" % (prop, k)
     wt = "/tmp/wt/%s" % prop
-    sid = "%s-%s" % (prop, k)
+    sid = "%s-%d" % (prop, int(k) + offset)
     out = {"id": sid, "property": prop, "ran": []}
     env = "PYTHONPATH=%s PYTHONWARNINGS=ignore" % wt
     sh("git checkout -- . && git clean -fdq", wt)
